@@ -347,7 +347,9 @@ func defectVariants() []Item {
 	add("duplicate-param", func(f *FlowCfg, cf *Config) { f.Procs[1].Params = []string{"header", "header"} })
 	add("extra-unknown-param", func(f *FlowCfg, cf *Config) { f.Procs[1].Params = []string{"header", "zzz"} })
 	add("gen-without-params", func(f *FlowCfg, cf *Config) { f.Procs[2].Params = nil })
-	add("key-with-dot", func(f *FlowCfg, cf *Config) { f.Procs = append(f.Procs, Proc{Key: "x.y", Type: tFilter, Params: []string{"header"}}) })
+	add("key-with-dot", func(f *FlowCfg, cf *Config) {
+		f.Procs = append(f.Procs, Proc{Key: "x.y", Type: tFilter, Params: []string{"header"}})
+	})
 	add("unused-processor", func(f *FlowCfg, cf *Config) { f.Procs = append(f.Procs, filt("unused")) })
 	add("unused-broken-processor", func(f *FlowCfg, cf *Config) { f.Procs = append(f.Procs, Proc{Key: "unused", Type: tFilter}) })
 	add("limiter-without-quota-id", func(f *FlowCfg, cf *Config) {
@@ -425,6 +427,84 @@ func defectVariants() []Item {
 		f1 := goodFlow("A", mainURL, "")
 		f2 := goodFlow("A", mainURL, "x")
 		out = append(out, Item{Label: "variant:duplicate-flow-name", Config: Config{Flows: []FlowCfg{f1, f2}}})
+	}
+	return out
+}
+
+// ---------------------------------------------------------------- family: status filters x early responses
+
+// A flow whose filter carries a `status_code` list next to (or being) a flow
+// that answers requests itself, on overlapping URLs: after the hand-over the
+// transaction is looked up again as a response although no response exists.
+// Every combination of: URL of the status flow (same / wildcard parent / "*"),
+// status list, declaration order, who answers (the other flow, the status flow
+// itself, both), plus a third unconstrained flow on the wildcard.
+func statusEarlyItems(r *c.Rng) []Item {
+	answering := func(name, url, pre string) FlowCfg {
+		f1, g, t1 := pre+"f", pre+"g", pre+"t"
+		return FlowCfg{Name: name, URL: url, Procs: []Proc{filt(f1), gen1(g), filt(t1)},
+			Req: []Conn{s2p(f1), p2p(f1, "hit", g), p2s(f1, "miss")},
+			Res: []Conn{p2p(g, "", t1), p2s(t1, "hit")}}
+	}
+	plain := func(name, url, pre string) FlowCfg {
+		b1, b2 := pre+"1", pre+"2"
+		return FlowCfg{Name: name, URL: url, Procs: []Proc{filt(b1), filt(b2)},
+			Req: []Conn{s2p(b1), p2s(b1, "hit")},
+			Res: []Conn{s2p(b2), p2s(b2, "hit")}}
+	}
+	urls := []string{mainURL, "c05.test/*", "\"*\""}
+	lists := [][]int{{200}, {429}, {200, 404}, {500}}
+	var out []Item
+	add := func(label string, flows ...FlowCfg) {
+		cf := Config{Flows: flows}
+		txns := txnsFor(r.Fork(uint64(len(out))+500), &cf, 16)
+		for _, st := range []int{404, 429} {
+			txns = append(txns, Txn{Dir: "res", URL: mainURL, Status: st, Headers: h(filterHeaders(&cf)...)})
+		}
+		out = append(out, Item{Label: "status-early:" + label, Config: cf, Txns: txns})
+	}
+	for ui, u := range urls {
+		for li, l := range lists {
+			a := answering("A", mainURL, "a")
+			b := plain("B", u, "b")
+			b.Status = l
+			add(fmt.Sprintf("other-answers-%d-%d", ui, li), a, b)
+			add(fmt.Sprintf("other-answers-declared-later-%d-%d", ui, li), b, a)
+			// the status flow answers as well
+			b2 := answering("B", u, "b")
+			b2.Status = l
+			add(fmt.Sprintf("both-answer-%d-%d", ui, li), a, b2)
+			// a third, unconstrained flow on the wildcard
+			add(fmt.Sprintf("three-flows-%d-%d", ui, li), a, b, plain("C", "c05.test/*", "c"))
+		}
+	}
+	// the other fields of a filter next to an answering flow (and on it)
+	extras := []string{
+		"  expressions: [\"$.response.status\"]\n",
+		"  expressions: [\"$.response.body.a\", \"$.response.headers.x-a\"]\n",
+		"  expressions: [\"$.request.body.a\"]\n",
+		"  expressions: [\"$.request.headers.x-af\", \"$.response.status\"]\n",
+		"  method: [GET]\n",
+		"  method: [POST]\n",
+		"  headers:\n    - key: x-af\n      value: \"1\"\n",
+		"  query_params:\n    - key: q\n      value: 1\n",
+		"  sample_percentage: 100\n", // (anything below 100 makes the selection random)
+		"  status_code: [200]\n  method: [GET]\n  headers:\n    - key: x-af\n      value: \"1\"\n",
+	}
+	for ei, ex := range extras {
+		a := answering("A", mainURL, "a")
+		b := plain("B", mainURL, "b")
+		b.FilterExtra = ex
+		add(fmt.Sprintf("other-answers-filter-%d", ei), a, b)
+		a2 := answering("A", mainURL, "a")
+		a2.FilterExtra = ex
+		add(fmt.Sprintf("answering-flow-has-filter-%d", ei), a2, plain("B", "c05.test/*", "b"))
+	}
+	for li, l := range lists {
+		a := answering("A", mainURL, "a")
+		a.Status = l
+		add(fmt.Sprintf("answering-flow-has-status-%d", li), a)
+		add(fmt.Sprintf("answering-flow-has-status-and-neighbour-%d", li), a, plain("B", mainURL, "b"))
 	}
 	return out
 }
@@ -605,6 +685,9 @@ func (g *rgen) config(nprocMax int) Config {
 			url = "c05.test/" + strings.ToLower(n)
 		}
 		cf.Flows = append(cf.Flows, g.flow(n, url, others, r.Range(1, nprocMax), r.Chance(1, 4)))
+		if r.Chance(1, 4) { // a status requirement on the flow's filter
+			cf.Flows[i].Status = c.Pick(r, [][]int{{200}, {429}, {200, 404}})
+		}
 	}
 	return cf
 }
